@@ -55,7 +55,7 @@ fn opt(v: Option<&str>) -> Value {
 /// and an invalid declared key.
 macro_rules! model_qualifier {
     ($name:ident, $key:literal) => {
-        struct $name(String);
+        pub struct $name(pub String);
         impl purl::qualifiers::well_known::KnownQualifierKey for $name {
             const KEY: &'static str = $key;
         }
@@ -101,6 +101,18 @@ fn typed_op(q: &mut Qualifiers, op: &str, val: String) -> Option<Value> {
         "Bad" => go!(MqBad, o),
         _ => None,
     }
+}
+
+/// a stored key compared with an arbitrary string through QualifierKey's public PartialEq<S> / PartialOrd<S>
+pub fn keycmp(req: &Value) -> Value {
+    let key = unhex(&req["key"]);
+    let other = unhex(&req["other"]);
+    let q = match Qualifiers::try_from_iter([(key.as_str(), "v")]) {
+        Ok(q) => q,
+        Err(e) => return json!({"err": parse_err_name(&e)}),
+    };
+    let (k, _) = q.iter().next().unwrap();
+    json!({"eq": *k == other.as_str(), "cmp": k.partial_cmp(other.as_str()).map(|o| o as i8)})
 }
 
 pub fn run(req: &Value) -> Value {
@@ -389,6 +401,7 @@ pub fn ptype(req: &Value) -> Value {
             #[cfg(not(feature = "sd"))]
             let serde_name: Option<String> = None;
             json!({"ok": {"serde": serde_name, "name": hx(t.name()), "display": hx(&t.to_string()), "as_ref": hx(t.as_ref()),
+                          "display_alt": hx(&format!("{:#}", t)), "display_plus": hx(&format!("{:+}", t)), "display_prec": hx(&format!("{:.9}", t)),
                           "into": hx(s), "package_type": hx(&t.package_type()), "debug": format!("{:?}", t)}})
         },
         Err(_) => json!({"err": "UnsupportedPackageType"}),
